@@ -19,6 +19,7 @@
  * exceed BUFSZ is not made ("SKIP").                                        */
 #include "internal.h"
 #include <inttypes.h>
+#include <complex.h>
 #include <dirent.h>
 #include <stdarg.h>
 #include <ctype.h>
@@ -231,6 +232,11 @@ static void snap_list(const char *parent)
   for (i = 0; i < n && l[i]; i++) names[i] = strdup(l[i]);
   n = i;
   for (i = 0; i < n; i++) {
+    if (parent) {   /* metafield lists hold bare names */
+      char *full = malloc(strlen(parent) + strlen(names[i]) + 2);
+      sprintf(full, "%s/%s", parent, names[i]);
+      free(names[i]); names[i] = full;
+    }
     sn("E %s hidden %d fi %d\n", names[i], gd_hidden(D, names[i]), gd_fragment_index(D, names[i]));
     snap_entry(names[i]);
     snap_data(names[i]);
@@ -324,6 +330,11 @@ static const struct opdesc OPS[] = {
   {"add_polynom","sisf"}, {"add_mplex","sssiif"}, {"add_window","sssif"}, {"add_linterp","sssf"},
   {"add_multiply","sssf"}, {"add_divide","sssf"}, {"add_recip","ssdf"}, {"add_indir","sssf"}, {"add_sindir","sssf"},
   {"add_entry","siif"},
+  {"add_clincom","sisf"}, {"add_cpolynom","sisf"}, {"add_crecip","ssdf"}, {"add_crecip89","ssdf"},
+  {"alter_clincom","sis"}, {"alter_cpolynom","sis"}, {"alter_crecip","ssd"}, {"alter_crecip89","ssd"},
+  {"madd_entry","ssii"}, {"madd_clincom","ssis"}, {"madd_cpolynom","ssis"}, {"madd_crecip","sssd"}, {"madd_crecip89","sssd"},
+  {"madd_divide","ssss"}, {"madd_multiply","ssss"}, {"madd_indir","ssss"}, {"madd_sindir","ssss"}, {"madd_linterp","ssss"},
+  {"madd_mplex","ssssii"}, {"madd_recip","sssd"}, {"madd_sbit","sssii"}, {"madd_window","ssssi"},
   {"madd_bit","sssii"}, {"madd_phase","sssl"}, {"madd_const","sstt"}, {"madd_carray","sstzt"}, {"madd_string","sss"},
   {"madd_alias","sss"}, {"madd_lincom","ssis"}, {"madd_polynom","ssis"}, {"madd_sarray","ssz"},
   {"alter_raw","stui"}, {"alter_bit","ssii"}, {"alter_sbit","ssii"}, {"alter_phase","ssl"}, {"alter_const","st"},
@@ -369,10 +380,11 @@ static void fill_entry(gd_entry_t *E, const char *name, int type, int k, int fra
 static int call(const char *op)
 {
   static double ones[GD_MAX_POLYORD + 8];
+  static double _Complex cones[GD_MAX_POLYORD + 8];
   const char *inf[GD_MAX_LINCOM + 2];
   int i;
   RSKIP = 0; RET = 0;
-  for (i = 0; i < GD_MAX_POLYORD + 8; i++) ones[i] = 1;
+  for (i = 0; i < GD_MAX_POLYORD + 8; i++) { ones[i] = 1; cones[i] = 1 + _Complex_I; }
   for (i = 0; i < GD_MAX_LINCOM + 2; i++) inf[i] = "raw";
 #define NEED(bytes) do { unsigned long long nb_ = (bytes); if (nb_ > BUFSZ) { RSKIP = 1; return 0; } } while (0)
 #define MULOK(n, sz) ((sz) == 0 || (unsigned long long)(n) <= BUFSZ / (sz))
@@ -483,6 +495,28 @@ static int call(const char *op)
   OP("add_recip") RET = gd_add_recip(D, S(0), S(1), Dd(2), I(3));
   OP("add_indir") RET = gd_add_indir(D, S(0), S(1), S(2), I(3));
   OP("add_sindir") RET = gd_add_sindir(D, S(0), S(1), S(2), I(3));
+  OP("add_clincom") { int n = I(1); if (n > GD_MAX_LINCOM + 2) { RSKIP = 1; return 0; } for (i = 0; i < GD_MAX_LINCOM + 2; i++) inf[i] = S(2); RET = gd_add_clincom(D, S(0), n, inf, cones, cones, I(3)); }
+  OP("add_cpolynom") { int n = I(1); if (n > GD_MAX_POLYORD + 6) { RSKIP = 1; return 0; } RET = gd_add_cpolynom(D, S(0), n, S(2), cones, I(3)); }
+  OP("add_crecip") RET = gd_add_crecip(D, S(0), S(1), Dd(2) + _Complex_I, I(3));
+  OP("add_crecip89") { double cd[2]; cd[0] = Dd(2); cd[1] = 1; RET = gd_add_crecip89(D, S(0), S(1), cd, I(3)); }
+  OP("alter_clincom") { int n = I(1); if (n > GD_MAX_LINCOM + 2) { RSKIP = 1; return 0; } for (i = 0; i < GD_MAX_LINCOM + 2; i++) inf[i] = S(2); RET = gd_alter_clincom(D, S(0), n, inf, cones, cones); }
+  OP("alter_cpolynom") { int n = I(1); if (n > GD_MAX_POLYORD + 6) { RSKIP = 1; return 0; } RET = gd_alter_cpolynom(D, S(0), n, *A[2] == '!' ? NULL : S(2), cones); }
+  OP("alter_crecip") RET = gd_alter_crecip(D, S(0), *A[1] == '!' ? NULL : S(1), Dd(2) + _Complex_I);
+  OP("alter_crecip89") { double cd[2]; cd[0] = Dd(2); cd[1] = 1; RET = gd_alter_crecip89(D, S(0), *A[1] == '!' ? NULL : S(1), cd); }
+  OP("madd_entry") { gd_entry_t E; fill_entry(&E, S(1), I(2), I(3), 0); RET = gd_madd(D, &E, S(0)); }
+  OP("madd_clincom") { int n = I(2); if (n > GD_MAX_LINCOM + 2) { RSKIP = 1; return 0; } for (i = 0; i < GD_MAX_LINCOM + 2; i++) inf[i] = S(3); RET = gd_madd_clincom(D, S(0), S(1), n, inf, cones, cones); }
+  OP("madd_cpolynom") { int n = I(2); if (n > GD_MAX_POLYORD + 6) { RSKIP = 1; return 0; } RET = gd_madd_cpolynom(D, S(0), S(1), n, S(3), cones); }
+  OP("madd_crecip") RET = gd_madd_crecip(D, S(0), S(1), S(2), Dd(3) + _Complex_I);
+  OP("madd_crecip89") { double cd[2]; cd[0] = Dd(3); cd[1] = 1; RET = gd_madd_crecip89(D, S(0), S(1), S(2), cd); }
+  OP("madd_divide") RET = gd_madd_divide(D, S(0), S(1), S(2), S(3));
+  OP("madd_multiply") RET = gd_madd_multiply(D, S(0), S(1), S(2), S(3));
+  OP("madd_indir") RET = gd_madd_indir(D, S(0), S(1), S(2), S(3));
+  OP("madd_sindir") RET = gd_madd_sindir(D, S(0), S(1), S(2), S(3));
+  OP("madd_linterp") RET = gd_madd_linterp(D, S(0), S(1), S(2), S(3));
+  OP("madd_mplex") RET = gd_madd_mplex(D, S(0), S(1), S(2), S(3), I(4), I(5));
+  OP("madd_recip") RET = gd_madd_recip(D, S(0), S(1), S(2), Dd(3));
+  OP("madd_sbit") RET = gd_madd_sbit(D, S(0), S(1), S(2), I(3), I(4));
+  OP("madd_window") { gd_triplet_t th; th.u = 3; RET = gd_madd_window(D, S(0), S(1), S(2), S(3), (gd_windop_t)I(4), th); }
   OP("add_entry") { gd_entry_t E; fill_entry(&E, S(0), I(1), I(2), I(3)); RET = gd_add(D, &E); }
   OP("madd_bit") RET = gd_madd_bit(D, S(0), S(1), S(2), I(3), I(4));
   OP("madd_phase") RET = gd_madd_phase(D, S(0), S(1), S(2), L(3));
